@@ -319,10 +319,10 @@ theorem old_flag_spurious :
   · exact ⟨⟨false, [false, false], [[7], [8, 9]], some (11/10)⟩, by decide +kernel, rfl, rfl⟩
 
 -- non-vacuity: a cut run (worker 1 killed with one of two batches delivered) and a run in time
-example : run true 1 0 [0, 1/5, 2/5, 3/5, 4/5, 1, 6/5] []
+example : run true 1 0 [0, 1/5, 2/5, 3/5, 4/5, 19/20, 6/5] []
     [(⟨[(1/2, 7)], 3/5⟩ : Worker Nat), ⟨[(1/10, 8), (5, 9)], 6⟩]
     = some ⟨true, [false, true], [[7], [8]], some (6/5)⟩ := by decide +kernel
-example : run true 1 0 [0, 1/5, 2/5, 3/5, 4/5, 1, 6/5] []
+example : run true 1 0 [0, 1/5, 2/5, 3/5, 4/5, 19/20, 6/5] []
     [(⟨[(1/2, 7)], 3/5⟩ : Worker Nat), ⟨[(1/10, 8), (1/2, 9)], 7/10⟩]
     = some ⟨false, [false, false], [[7], [8, 9]], some (4/5)⟩ := by decide +kernel
 example : run true (-1) 0 [] [] [(⟨[(1/2, 7)], 3/5⟩ : Worker Nat)]
